@@ -15,6 +15,12 @@ def run_kani(pid, tier, seed, t0, groups, assume, funcs, explanation, extra_obs=
 
 def replay(path, hooks=True):
     m = re.search(r"harness=(\S+) group=(\S+)", open(path).read())
+    if path.endswith(".random"):
+        import subprocess
+        bins = kani.build_replay(m.group(2).rstrip(":"), hooks)
+        rc = [subprocess.run([b, m.group(1), "--random", "20000", "1"], capture_output=True, text=True).returncode for b in bins.values() if b]
+        print(rc)
+        return 1 if 1 in rc else 0
     rr = kani.run_replay_file(m.group(2), m.group(1), path, hooks)
     print(rr)
     return 1 if any(v.startswith("reproduced") for v in rr.values()) else 0
